@@ -16,13 +16,13 @@ import (
 // C17 — iteration durations are measured around the body and aggregated exactly.
 
 type c17MeasureParams struct {
-	N        int    `json:"n"`
-	Tick     int    `json:"tick"`
-	BodyUS   []int  `json:"body_us"`
-	CleanUS  []int  `json:"clean_us"`
-	Kinds    []int  `json:"kinds"`
-	Mode     string `json:"mode"`
-	Desc     string `json:"desc"`
+	N       int    `json:"n"`
+	Tick    int    `json:"tick"`
+	BodyUS  []int  `json:"body_us"`
+	CleanUS []int  `json:"clean_us"`
+	Kinds   []int  `json:"kinds"`
+	Mode    string `json:"mode"`
+	Desc    string `json:"desc"`
 }
 
 type c17AggParams struct {
